@@ -37,7 +37,7 @@ COMMIT_MSGS = [None, "bump {old_version} -> {new_version}", 'release "{new_versi
 TAG_MSGS = [None, "", "release {new_version}"]
 SCOPES = [None, "default", "global", "branch"]
 HOOKS = [None, "", "hook.sh", "missing.sh"]
-LAYOUTS = ["none", "1x1", "1x3", "2x2", "glob", "explicit"]
+LAYOUTS = ["none", "1x1", "1x3", "2x2", "glob", "explicit", "glob-over-config"]
 RENDERINGS = ["setup.cfg[bumpver]", "setup.cfg[pycalver]", "pyproject.toml", "bumpver.toml", ".bumpver.toml", "pycalver.toml",
               # the same files as they look when saved with Windows line endings
               "setup.cfg[bumpver]+crlf", "bumpver.toml+crlf",
@@ -63,6 +63,10 @@ def layout_entries(layout, cfgname, toml):
         return [("src/*.txt", ["ver={version};"])]
     if layout == "explicit":
         return [(cfgname, ["@OWN@"]), ("a.txt", ["ver={version};"])]
+    if layout == "glob-over-config":
+        # a glob that also reaches the config file itself (by its extension), for some other line: the config's own line stays configured
+        ext = os.path.splitext(cfgname)[1]
+        return [("*" + ext, ["release {version}"]), ("a.txt", ["ver={version};"])]
     raise KeyError(layout)
 
 
